@@ -84,13 +84,26 @@ def run(ctx):
 
     # ---- b: nonce + framing
     def nonce_shape(fn):
-        out = dict(be=False, last8=False, from_index=False, base=None, len_le=False, len_w=None, inc1=False)
-        for b in bodies(F, fn):
+        out = dict(be=False, last8=False, from_index=False, base=None, len_le=False, len_w=None, inc1=False, helper=None, be_prefix=False)
+        bs_ = bodies(F, fn)
+        # a nonce helper shared by both siblings (local callee returning a byte array and taking the chunk index)
+        for b in list(bs_):
+            for c in b.calls():
+                lc = c.local_callee
+                if lc and lc in F.fns and lib._ARR.search(F.fns[lc].local_ty(0) or '') and 'nonce' in F.fns[lc].name:
+                    out['helper'] = F.fns[lc].key
+                    bs_ = bs_ + bodies(F, F.fns[lc])
+                    sl0 = lib.slice_back(b, c.args[:1], through_calls=True, at=(c.bb, None))
+                    out['base'] = 'header.nonce' if (sl0.has_field('Mv2eHeader', 'nonce') or any('nonce' in f for o, f in sl0.fields if o == '{closure}')) else 'other'
+        for b in bs_:
             for c in b.calls():
                 if c.name == 'copy_from_slice':
                     src = lib.slice_back(b, c.args[1:2], through_calls=True, at=(c.bb, None))
                     if any(x.name == 'to_be_bytes' for x in src.calls):
                         out['be'] = True
+                        # only a prefix of the big-endian counter (`counter[..k]`): those are its HIGH-order bytes
+                        if 'RangeTo::RangeTo' in src.aggs:
+                            out['be_prefix'] = True
                         dst = lib.slice_back(b, c.args[:1], through_calls=True, at=(c.bb, None))
                         # range start = NONCE_SIZE - 8
                         for bb, i, s in b.stmts():
@@ -100,7 +113,10 @@ def run(ctx):
                                 ns = F.const('NONCE_SIZE')
                                 if v is not None and ns is not None and v == ns - 8:
                                     out['last8'] = True
-                        out['base'] = 'header.nonce' if (dst.has_field('Mv2eHeader', 'nonce') or any('nonce' in f for o, f in dst.fields if o == '{closure}')) else 'other'
+                                elif v is not None and ns is not None and 0 < ns - v < 8:
+                                    out['last8'] = 'last%d' % (ns - v)
+                        if out['helper'] is None:
+                            out['base'] = 'header.nonce' if (dst.has_field('Mv2eHeader', 'nonce') or any('nonce' in f for o, f in dst.fields if o == '{closure}')) else 'other'
                 if c.name in ('to_le_bytes', 'from_le_bytes'):
                     ty = b.local_ty(c.dest.l) if c.name == 'to_le_bytes' else b.local_ty(op_place(c.args[0]).l) if op_place(c.args[0]) is not None else ''
                     m = lib._ARR.search(ty)
@@ -117,8 +133,12 @@ def run(ctx):
         return out
     sl_, su = nonce_shape(lk), nonce_shape(st)
     ctx.evaluations += 2
-    if sl_ == su and sl_['be'] and sl_['last8'] and sl_['len_le'] and sl_['inc1']:
-        ctx.ok('AGREE-C29b', st, 'lock and unlock: nonce = base with BE chunk index in the last 8 bytes; u32 LE length prefix; index += 1 per chunk')
+    agree = {k: v for k, v in sl_.items() if k != 'base'} == {k: v for k, v in su.items() if k != 'base'}
+    if agree and sl_['be'] and sl_['be_prefix']:
+        ctx.bad('AGREE-C29b', st, 'the per-chunk nonce takes a prefix of the big-endian chunk counter, i.e. its high-order bytes: they are zero for every realistic chunk index, so all chunks '
+                'of a capsule are sealed under the same nonce and are no longer bound to their position (chunks can be swapped or duplicated undetected)', detail='nonce-ignores-low-counter-bytes')
+    elif agree and sl_['be'] and sl_['last8'] is True and sl_['len_le'] and sl_['inc1']:
+        ctx.ok('AGREE-C29b', st, 'lock and unlock: nonce = base with BE chunk index in the last 8 bytes%s; u32 LE length prefix; index += 1 per chunk' % ((' (shared helper %s)' % sl_['helper']) if sl_['helper'] else ''))
     else:
         ctx.bad('AGREE-C29b', st, 'nonce derivation / chunk framing differ between lock (%s) and unlock (%s)' % (sl_, su), detail='nonce-framing')
     # ---- c
